@@ -34,6 +34,8 @@ pub enum TOp {
   Probe,
   /// alloc_bytes_owned(n): handle embeds a clone of the arena
   BO(u32),
+  /// alloc_aligned_bytes_owned::<u64>(n): an owned buffer with alignment padding in front when the cursor is odd
+  ABO(u32),
   /// release the most recent allocation of this thread
   DropOwn,
   /// release a range that was allocated before the threads started
@@ -60,6 +62,7 @@ impl TOp {
       TOp::T16 => "T16".into(),
       TOp::Probe => "Probe".into(),
       TOp::BO(n) => format!("BO{n}"),
+      TOp::ABO(n) => format!("ABO{n}"),
       TOp::DropOwn => "D".into(),
       TOp::DropPre(i) => format!("Dp{i}"),
       TOp::Discard => "Disc".into(),
@@ -1326,6 +1329,14 @@ fn run_thread(tid: usize, sh: &Shared, prog: &[TOp], mine: Option<Arena>) {
           owned.push((l, b));
         }
         Err(_) => tr(tid, || format!("BO{n} failed")),
+      },
+      TOp::ABO(n) => match a.alloc_aligned_bytes_owned::<u64>(n) {
+        Ok(b) => {
+          values(1);
+          let l = reg_alloc_req(tid, sh, meta_of(&b), "owned-aligned-bytes", 0x98 + tid as u8, Some((n, 8, 8)));
+          owned.push((l, b));
+        }
+        Err(_) => tr(tid, || format!("ABO{n} failed")),
       },
       TOp::DropOwn => {
         if let Some((l, b)) = owned.pop() {
